@@ -96,28 +96,44 @@ def run(ctx):
     # ---- the name FIELDS of a Game Start block (name tag 16 bytes, display name 31, connect code 10): filled to the last byte without a NUL,
     # with a NUL at every position, and with half-width katakana; the whole block goes through the real reader and the model
     from .readerlib import both_modes
-    fcases = []
+    fcases = []; fexp = {}
     kana = bytes(range(0xa1, 0xe0))
+    def dec(field):
+        body = field.split(b'\0')[0]
+        return ''.join(chr(c) if c < 0x80 else chr(0xff61 + c - 0xa1) for c in body)
     for i in range(40 if thorough else 12):
         r = synth.gen_wf(rng, rng.choice([(3, 9), (3, 12), (3, 16)]), nframes=0, gecko=0)
         b = bytearray(synth.emit(r))
-        so = b.index(bytes([0x36]), 15) + 1            # start block follows the first 0x36 after the payload table
-        so = 15 + 2 + 3 * len(synth.payload_table(r)) + 1
+        so = 15 + 2 + 3 * len(synth.payload_table(r)) + 1          # offset of the Game Start block
         def fill(off, n, k):
             src = kana if i % 3 == 2 else b'ABCDEFGHIJKLMNOPQRSTUVWXYZabcdefghijklmnopqrstuvwxyz0123456789#'
             body = bytes(rng.choice(src) for _ in range(n))
             if k < n: body = body[:k] + b'\0' + bytes(rng.randrange(256) for _ in range(n - k - 1))
             b[so + off:so + off + n] = body
+            return dec(body)
+        exp = []
         for p_ in range(4):
-            fill(352 + 16 * p_, 16, rng.choice([16, 16, 15, 0, rng.randrange(17)]))      # name tags (v1.3)
-            fill(420 + 31 * p_, 31, rng.choice([31, 31, 30, 0, rng.randrange(32)]))      # display names (v3.9)
-            fill(544 + 10 * p_, 10, rng.choice([10, 10, 9, 0, rng.randrange(11)]))       # connect codes (v3.9)
-        fcases.append(('f%d' % i, [bytes(b).hex(), '-', '-', '-']))
+            t = fill(352 + 16 * p_, 16, rng.choice([16, 16, 15, 0, rng.randrange(17)]))      # name tags (v1.3)
+            n_ = fill(420 + 31 * p_, 31, rng.choice([31, 31, 30, 0, rng.randrange(32)]))     # display names (v3.9)
+            c_ = fill(544 + 10 * p_, 10, rng.choice([10, 10, 9, 0, rng.randrange(11)]))      # connect codes (v3.9)
+            if any(pp == p_ for pp, _ in r.ports):
+                exp.append((t, n_, c_))
+        fcases.append(('f%d' % i, [bytes(b).hex(), '-', '-', '-'])); fexp['f%d' % i] = exp
     fimpl, fmodel = both_modes(ctx, 'read', fcases, corr, parallel=8)
+    hx = lambda t: t.encode('utf-8').hex()
     for cid, f in fcases:
         corr.seen(f[0]); corr.count('start_block_name_fields')
-        if (fimpl.get(cid) or ['?'])[0] != 'OK':
-            corr.oracle_failures.append((cid, 'a Game Start block with full-length / NUL-terminated ASCII or katakana names is rejected: %s' % (fimpl.get(cid) or ['?'])[:2],
-                                         {'mode': 'read', 'fields': f, 'replay_hex': f[0]}))
+        out = fimpl.get(cid) or ['?']
+        info = {'mode': 'read', 'fields': f, 'replay_hex': f[0], 'rerun': 'pvh read <file: x <replay_hex> - - ->'}
+        if out[0] != 'OK':
+            corr.oracle_failures.append((cid, 'a Game Start block with full-length / NUL-terminated ASCII or katakana names is rejected: %s' % out[:2], info)); continue
+        sj = next((l for l in out if l.startswith('start.json=')), '')
+        got = list(zip(re.findall(r'"6e616d655f746167":"([0-9a-f]*)"', sj), re.findall(r'"6e616d65":"([0-9a-f]*)"', sj), re.findall(r'"636f6465":"([0-9a-f]*)"', sj)))
+        want = [(hx(t), hx(n_), hx(c_)) for t, n_, c_ in fexp[cid]]
+        if got != want:
+            k = next((j for j in range(min(len(got), len(want))) if got[j] != want[j]), min(len(got), len(want)))
+            corr.oracle_failures.append((cid, 'name fields are not the bytes up to the first NUL (occupied player #%d: tag/name/code decoded as %s, the field bytes say %s)'
+                                         % (k, [bytes.fromhex(x).decode('utf-8', 'replace') for x in (got[k] if k < len(got) else ())],
+                                            [bytes.fromhex(x).decode('utf-8') for x in (want[k] if k < len(want) else ())]), info))
     corr.sample({'sjis': cases[5]}); corr.sample({'sjis': cases[-4]}); corr.sample({'norm': ncases[15]})
     return corr
